@@ -1,5 +1,5 @@
 SPECIFICATION GenSpec
-CONSTANTS Kinds = {"buf", "hmeta", "reply", "rawdata", "stream", "geninfo", "metabuf", "cxxref", "bare"}
+CONSTANTS Kinds = {"buf", "hmeta", "reply", "rawdata", "stream", "outlocal", "outremote", "iterfile", "geninfo", "metabuf", "cxxref", "bare"}
   NH = 2 NObj = 2 Max = 20 MaxExtra = 1 AsFound = FALSE
 CONSTRAINT NarrowGap
 VIEW Skel
